@@ -486,6 +486,75 @@ def run_history(run: Run, stream, case, rows):
     return problem
 
 
+def attr_scope_cases(run: Run, stream):
+    """attributes given to an element before it is attached below a default namespace: what the attribute objects and
+    the serialization report afterwards must not depend on whether the element's wrapper (and the attribute objects it
+    caches) was evicted by a collection in between and is rebuilt on the next access"""
+    from delb import Document, altered_default_filters, new_tag_node, tag
+
+    def build(case):
+        doc = Document(f"<root{case['decl']}/>")
+        root = doc.root
+        how, ans = case["how"], case["attr_ns"]
+        key = ("x" if ans == "" else (ans, "x"))
+        if how == "new_tag_node":
+            b = new_tag_node("b", attributes={key: "1"}, namespace=root.namespace or None)
+            root.append_children(b)
+            c = b.append_children(tag("c"))[0]
+        elif how == "set-then-append":
+            b = new_tag_node("b", namespace=root.namespace or None)
+            b.attributes[key] = "1"
+            root.append_children(b)
+            c = b.append_children(tag("c"))[0]
+        elif how == "other-namespace-node":
+            b = new_tag_node("b", attributes={key: "1"}, namespace="http://e")
+            root.append_children(b)
+            c = b.append_children(tag("c"))[0]
+        elif how == "definition":
+            b = root.append_children(tag("b", {"x": "1"}, [tag("c")]))[0]
+            c = b[0]
+        else:
+            c = root.fetch_or_create_by_xpath("b[@x='1']/c")
+        return doc, root, c
+
+    def observe(root, c):
+        with altered_default_filters():
+            b = c.parent
+            return {"names": [list(k) for k in b.attributes], "objects": [[a.namespace, a.local_name, a.universal_name, a.value] for a in b.attributes.values()],
+                    "lookup": ("x" in b.attributes, b.attributes.get("x") is not None), "b": str(b), "root": str(root)}
+
+    for decl in ("", " xmlns='http://d'", " xmlns:p='http://p'"):
+        for how in ("new_tag_node", "set-then-append", "other-namespace-node", "definition", "fetch_or_create"):
+            for ans in ("", "http://d", "http://o"):
+                if how in ("definition", "fetch_or_create") and ans:
+                    continue
+                case = {"attr_scope": True, "decl": decl, "how": how, "attr_ns": ans}
+                attr_scope_case(run, stream, case, build, observe)
+
+
+def attr_scope_case(run, stream, case, build, observe):
+    results = []
+    for collect in (False, True):
+        gc.collect()
+        gc.disable()
+        try:
+            doc, root, c = build(case)
+            if collect:
+                gc.collect()
+            results.append(observe(root, c))
+        except Exception as e:  # noqa: BLE001
+            results.append({"raised": type(e).__name__ + ": " + str(e)[:100]})
+        finally:
+            gc.enable()
+        del doc, root, c
+    run.case(stream, case, True)
+    run.count("attribute scope", case["how"])
+    if results[0] != results[1]:
+        diff = [k for k in results[0] if results[0].get(k) != results[1].get(k)] if "raised" not in results[0] and "raised" not in results[1] else ["raised"]
+        run.violation(stream, case, {"why": "what a program observes depends on whether a collection ran", "differs": diff,
+                                     "without collection": {k: results[0].get(k) for k in diff}, "with collection": {k: results[1].get(k) for k in diff}})
+
+
 UNRAISABLE: list = []
 
 
@@ -735,6 +804,7 @@ def check(run: Run, lean: dict) -> int:
     for c in micro_cases(run.rng, n // 3, MICRO_DOCS if run.tier == "quick" else MICRO_DOCS + E.DOCS):
         run_history(run, "single call, collections inside", c, rows)
     empty_in_chain(run, "empty text in a chain")
+    attr_scope_cases(run, "attributes given before attaching")
     if UNRAISABLE:
         run.count("unraisable exceptions in callbacks", len(UNRAISABLE))
         if not any("callback" in str(v.get("detail", "")) for v in run.violations):
